@@ -192,4 +192,27 @@ func shapes(c *ex.Ctx, sb *strings.Builder) {
 		}
 		fmt.Fprintf(sb, "/-- The input goroutine (`go func() {…}()` in openTty). -/\ndef shape_inputLoop : List String := %s\n\n", leanList(out))
 	}
+	// the goroutine the spinner starts
+	{
+		var out []string
+		found := false
+		if sf := c.Parse("widgets/spinner/spinner.go"); sf != nil {
+			if st := ex.FindFunc(sf, "Model", "start"); st != nil {
+				ast.Inspect(st.Body, func(n ast.Node) bool {
+					if g, ok := n.(*ast.GoStmt); ok && !found {
+						if fl, ok := g.Call.Fun.(*ast.FuncLit); ok {
+							found = true
+							skel(c, &out, fl.Body)
+						}
+						return false
+					}
+					return true
+				})
+			}
+		}
+		if !found {
+			out = []string{"unknown: no goroutine in spinner Model.start"}
+		}
+		fmt.Fprintf(sb, "/-- The spinner's goroutine (`go func() {…}()` in Model.start). -/\ndef shape_spinnerLoop : List String := %s\n\n", leanList(out))
+	}
 }
